@@ -5,12 +5,14 @@ import (
 	"os"
 
 	"verif/checks/c13"
+	"verif/checks/c14"
 	"verif/checks/c22"
 	"verif/checks/c38"
 )
 
 var checks = map[string]func(){
 	"C13": c13.Main,
+	"C14": c14.Main,
 	"C22": c22.Main,
 	"C38": c38.Main,
 }
